@@ -24,7 +24,7 @@ PRE = [
     (r'this->connection_changed\( details\(\), connection_data_, static_cast< radio_t& >\( \*this \) \);', 'cb_connection_changed();', '*'),
     (r'this->template handle_connection_parameters_request< layout_t >\( pdu, write, details\(\) \)', 'll_handle_connection_parameters_request( pdu )', '*'),
     (r'this->handle_encryption_pdus\( opcode, size, pdu, write, commit \)', 'll_handle_encryption_pdus( opcode, size, &commit )', '*'),
-    (r'this->handle_phy_request\( opcode, size, pdu, write, \*this, commit \)', 'll_handle_phy_request( self, opcode, size, &commit )', '*'),
+    (r'this->handle_phy_request\( opcode, size, pdu, write, \*this, commit \)', 'll_handle_phy_request( self, opcode, size, pdu, &commit )', '*'),
     (r'signaling_channel_t::connection_parameter_update_request\(\s*proposed_interval_min_,\s*proposed_interval_max_,\s*proposed_latency_,\s*proposed_timeout_ \)', 'sc_connection_parameter_update_request()', '*'),
     (r'this->wake_up\(\);', 'll_wake_up();', '*'), (r'this->commit_ll_transmit_buffer\( write \);', 'll_commit_ll_transmit_buffer();', '*'),
     (r'procedure_timeout_ = delta_time\(\);', 'procedure_timeout_ = 0;', '*'),
@@ -78,8 +78,10 @@ static inline void cb_connection_changed(void) { ++G_l.changed_cb; }
 static inline bool ll_handle_connection_parameters_request(const struct wbuf* p) { ++G_l.cpr_calls; return W_cpr_commit; }
 static inline bool ll_handle_encryption_pdus(uint8_t opcode, uint8_t size, bool* commit) { ++G_l.enc_calls; if (W_enc_handled) *commit = W_enc_commit; return W_enc_handled; }
 /* handle_phy_request (under contract in unit events): an LL_PHY_UPDATE_IND that answers the PHY update procedure this side started ends the response time out, nothing else touches it */
-bool W_phy_ends_own;
-static inline bool ll_handle_phy_request(struct ll* self, uint8_t opcode, uint8_t size, bool* commit) { ++G_l.phy_calls; if (W_phy_handled) { *commit = W_phy_commit; if (W_phy_ends_own) { self->procedure_timeout_ = 0; self->phy_update_request_running_ = false; } } return W_phy_handled; }
+bool W_phy_ends_own, W_phy_defers; uint16_t W_phy_instant;
+static inline bool ll_handle_phy_request(struct ll* self, uint8_t opcode, uint8_t size, const struct wbuf* pdu, bool* commit) { ++G_l.phy_calls; if (W_phy_handled) { *commit = W_phy_commit; if (W_phy_ends_own) { self->procedure_timeout_ = 0; self->phy_update_request_running_ = false; }
+    /* an LL_PHY_UPDATE_IND that changes a PHY is kept for its instant (contract of handle_phy_request, unit events) */
+    if (W_phy_defers) { self->defered_ll_control_pdu_ = *pdu; self->defered_conn_event_counter_ = W_phy_instant; } } return W_phy_handled; }
 static inline bool sc_connection_parameter_update_request(void) { return W_sc_result; }
 static inline void ll_wake_up(void) {}
 static inline void ll_commit_ll_transmit_buffer(void) { ++G_l.commits; }
@@ -157,8 +159,13 @@ __CPROVER_ensures((IS(LL_CONNECTION_UPDATE_IND, 12) || IS(LL_CHANNEL_MAP_REQ, 8)
     ? (__CPROVER_return_value == ll_result_go_ahead && self->defered_ll_control_pdu_.buffer == pdu->buffer && self->defered_ll_control_pdu_.size == pdu->size
        && self->defered_conn_event_counter_ == (IS(LL_CONNECTION_UPDATE_IND, 12) ? U16(12) : U16(8)) && REACHABLE(self->defered_conn_event_counter_))
     : (__CPROVER_return_value == ll_result_disconnect && self->disconnecting_reason_ == connection_instant_passed))))
-/* nothing else is deferred here (PHY update: handle_phy_request) */
-__CPROVER_ensures((DEFERRED(self) && !(W_phy_handled && ELSE_CHAIN)) ==> (IS(LL_CONNECTION_UPDATE_IND, 12) || IS(LL_CHANNEL_MAP_REQ, 8)))
+/* the same for an LL_PHY_UPDATE_IND that handle_phy_request wants to keep for its instant */
+#define PHY_DEFERS (ELSE_CHAIN && !W_enc_handled && W_phy_handled && W_phy_defers)
+__CPROVER_ensures(PHY_DEFERS ==> (REACHABLE(W_phy_instant)
+    ? (DEFERRED(self) && self->defered_ll_control_pdu_.buffer == pdu->buffer && self->defered_conn_event_counter_ == W_phy_instant && __CPROVER_return_value == ll_result_go_ahead)
+    : (!DEFERRED(self) && self->defered_ll_control_pdu_.size == 0 && __CPROVER_return_value == ll_result_disconnect && self->disconnecting_reason_ == connection_instant_passed)))
+/* nothing else is deferred here, and whatever is deferred has an instant that can still be met */
+__CPROVER_ensures(DEFERRED(self) ==> ((IS(LL_CONNECTION_UPDATE_IND, 12) || IS(LL_CHANNEL_MAP_REQ, 8) || PHY_DEFERS) && REACHABLE(self->defered_conn_event_counter_)))
 #endif
 __CPROVER_assigns(__CPROVER_object_whole(self), G_l)
 {{control}}
@@ -178,9 +185,9 @@ __CPROVER_assigns(__CPROVER_object_whole(self), G_l)
 {{pending}}
 #define SETUP struct ll* s; struct wbuf* p; struct rbuf w; for (int k = 0; k < 32; ++k) { W_pdu[k] = nondet_u8(); G_deferred_mem[k] = W_pdu[k]; } W_counter = nondet_u16(); G_counter = W_counter; W_instant_pending = nondet_u16(); W_version_received = nondet_bool(); W_pending = nondet_bool(); \
   W_used = nondet_u16(); W_supported = nondet_u16(); G_supported_features = W_supported; W_cpr_running = nondet_bool(); W_cpr_sc = nondet_bool(); W_timeout = nondet_u32(); W_cpr_commit = nondet_bool(); W_enc_handled = nondet_bool(); W_enc_commit = nondet_bool(); \
-  W_phy_handled = nondet_bool(); W_phy_commit = nondet_bool(); W_sc_result = nondet_bool(); W_parse_ok = nondet_bool(); W_pending_phy = nondet_bool(); W_version_sent = nondet_bool(); W_phy_running = nondet_bool(); W_phy_ends_own = nondet_bool(); G_l = (struct l_rec){ 0 }; \
+  W_phy_handled = nondet_bool(); W_phy_commit = nondet_bool(); W_sc_result = nondet_bool(); W_parse_ok = nondet_bool(); W_pending_phy = nondet_bool(); W_version_sent = nondet_bool(); W_phy_running = nondet_bool(); W_phy_ends_own = nondet_bool(); W_phy_defers = nondet_bool(); W_phy_instant = nondet_u16(); G_l = (struct l_rec){ 0 }; \
   /* what the two other handlers accept is their own contract (C28; PHY): encryption PDUs 0x03, 0x06, 0x0A, 0x0B, PHY PDUs 0x16, 0x18 */ \
-  __CPROVER_assume((!W_enc_handled || W_pdu[2] == 0x03 || W_pdu[2] == 0x06 || W_pdu[2] == 0x0A || W_pdu[2] == 0x0B) && (!W_phy_handled || W_pdu[2] == 0x16 || W_pdu[2] == 0x18) && (!W_phy_ends_own || (W_phy_running && W_pdu[2] == LL_PHY_UPDATE_IND))); BT_KNOWN_EXCLUDE()
+  __CPROVER_assume((!W_enc_handled || W_pdu[2] == 0x03 || W_pdu[2] == 0x06 || W_pdu[2] == 0x0A || W_pdu[2] == 0x0B) && (!W_phy_handled || W_pdu[2] == 0x16 || W_pdu[2] == 0x18) && (!W_phy_ends_own || (W_phy_running && W_pdu[2] == LL_PHY_UPDATE_IND)) && (!W_phy_defers || W_pdu[2] == LL_PHY_UPDATE_IND)); BT_KNOWN_EXCLUDE()
 void h_handle_ll_control_data(void) { SETUP; handle_ll_control_data(s, p, w); BT_CANARY(); }
 void h_handle_pending_ll_control(void) { SETUP; handle_pending_ll_control(s, nondet_u16()); BT_CANARY(); }
 '''
